@@ -85,12 +85,16 @@ InitC11 == /\ prog = InitProg /\ facts = [f \in Fields |-> "abs"] /\ nops = 0 /\
 RQuery(g, d, strat) == /\ UNCHANGED <<prog, facts>>
                        /\ last' = [op |-> "pquery", gf |-> g[1], gv |-> g[2], depth |-> d, strat |-> strat, neg |-> FALSE, maxsol |-> 1, rete |-> TRUE]
 RRetract(k) == /\ UNCHANGED <<prog, facts>> /\ last' = [op |-> "rretract", k |-> k]
+(* an aggregate query on the persistent engine (its own value is not observed): over a provable pattern, an unprovable one, and *)
+(* a pattern that does not parse (the call returns an error); none of them may influence later answers                         *)
+PAgg(form, g) == /\ UNCHANGED <<prog, facts>> /\ last' = [op |-> "pagg", form |-> form, gf |-> g[1], gv |-> g[2]]
 (* "S" is the string "true": it prints like the boolean but satisfies neither comparison (a look-alike of another type) *)
 NextC11 == /\ nops' = nops + 1
            /\ \/ \E f \in Fields, v \in Bools \cup {"abs", "S"} : SetFact(f, v)
               \/ \E g \in Atoms, d \in Depths, s \in Strategies, ng \in BOOLEAN, ms \in MaxSols : PQuery(g, d, s, ng, ms)
               \/ \E g \in Atoms, d \in Depths : RQuery(g, d, "dfs")
               \/ \E k \in 1..2 : RRetract(k)
+              \/ \E form \in {"pattern", "malformed"}, g \in Atoms : PAgg(form, g)
 
 (* ---- sanity of the oracle itself (L1) ---- *)
 HeightImpliesMay == \A g \in Atoms, d \in Depths : g \in Within(prog, facts, d) => g \in May(prog, facts)
@@ -101,6 +105,7 @@ Reach_MayNotMust == ~(\E g \in Atoms : g \in May(prog, facts) /\ ~(\E d \in 0..4
 Obs == CASE last.op = "query"  -> [sound |-> TRUE, complete |-> TRUE, untouched |-> TRUE]
          [] last.op = "pquery" -> [agrees |-> TRUE]
          [] last.op = "rretract" -> [ok |-> TRUE]
+         [] last.op = "pagg" -> [ok |-> TRUE]
          [] OTHER -> [ok |-> TRUE]
 Bound == nops <= MaxOps
 View == <<prog, facts>>
